@@ -1,6 +1,6 @@
 # replay of a solver counterexample against the real library (exit 1 = reproduces)
 import sys, warnings
-sys.path.insert(0, '/repo')
+sys.path.insert(0, '/tmp/sr/C01-m5')
 warnings.simplefilter('ignore')
 import numpy as np
 from svgpathtools import *
@@ -13,8 +13,8 @@ def NOT_REPRODUCED(msg=''):
     print('not reproduced', msg); sys.exit(0)
 
 
-p = Path(CubicBezier(0j, 0j, 0j, 0j), CubicBezier(0j, (-7.450580596923828e-09+0j), 0j, 0j))
-opts = dict(useSandT=True, use_closed_attrib=False, rel=False)
+p = Path(CubicBezier((-40+1j), (-40+1j), (-40-38j), (-40+1j)), CubicBezier((-40+1j), (-40+40j), 0j, (-40+1j)))
+opts = dict(useSandT=True, use_closed_attrib=True, rel=False)
 d = p.d(**opts)
 try:
     q = parse_path(d)
